@@ -544,6 +544,7 @@ func (p *Proxy) server(name string) *registeredServer {
 
 // Servers gets all registered servers.
 func (p *Proxy) Servers() []RegisteredServer {
+	verifhook.Point("list.servers.enter")
 	p.muS.RLock()
 	defer p.muS.RUnlock()
 	verifhook.Point("list.servers.iter")
@@ -679,6 +680,7 @@ func (p *Proxy) DisconnectAll(reason component.Component) {
 	// Snapshot the players under the lock: the map itself must not be iterated
 	// (nor its length relied upon) after unlocking, since disconnecting players
 	// unregisters them concurrently.
+	verifhook.Point("list.disconnectall.enter")
 	p.muP.RLock()
 	verifhook.Point("list.disconnectall.iter")
 	players := make([]*connectedPlayer, 0, len(p.playerIDs))
@@ -811,6 +813,7 @@ func (p *Proxy) PlayerCount() int {
 
 // Players returns all players on the proxy.
 func (p *Proxy) Players() []Player {
+	verifhook.Point("list.players.enter")
 	p.muP.RLock()
 	defer p.muP.RUnlock()
 	verifhook.Point("list.players.iter")
